@@ -1,7 +1,7 @@
 LIBS = ["libvpsc", "libcola"]          # libcola needs nothing from libavoid/libtopology (TopologyAddonInterface has a default)
 HARNESS = "harness/c07.cpp"
 DRIVER_MODE = "c07"
-LEAN_MODULES = ["AdaptaVerif.Props.C07"]
+LEAN_MODULES = ["AdaptaVerif.Props.C07", "AdaptaVerif.Props.C07Tie"]
 LEVEL = "translation_validation"
 LEVEL_TEXT = ("Proof component: for every libcola compound-constraint type the vpsc variables/constraints "
               "the model generates are proved sound and complete for the documented meaning (all parameters, "
@@ -29,6 +29,18 @@ TRUSTED_BASE = ["Lean 4.33 kernel", "axioms: propext, Classical.choice, Quot.sou
 ASSUMPTIONS = ["a double printed with %a is imported exactly", "generated inputs are dyadic so rectangle centres are exact",
                "unsatisfiable lists registered through setUnsatisfiableConstraintInfo are the only reporting channel"]
 EXPLANATION = "see LEVEL_TEXT / LEVEL_NOTE"
+
+
+def regenerate(ROOT, REPO):
+    """the eight CompoundConstraint::generateSeparationConstraints methods (iterator loops over _subConstraintInfo pushing
+    `new vpsc::Constraint(...)`) and VarIndexPair::indexL/indexR are regenerated from cola/libcola/compound_constraints.cpp by
+    cpp2lean on every run and proved equal to the generators of Model/Compound.lean and to what the dispatcher genSepsOne
+    returns (Props/C07Tie.lean)"""
+    import sys
+    from pathlib import Path
+    sys.path.insert(0, str(Path(ROOT) / "tools" / "cpp2lean"))
+    import jobs
+    return jobs.regenerate(["compound"], Path(ROOT), Path(REPO))
 
 
 def plan(tier, seed, searching):
